@@ -91,6 +91,54 @@ var _ = time.Second
 ` + gvcDriver
 
 var clauseScenarios = []clauseScenario{
+	{"fingerprint.(*ChecksumChecker).OnError", "checker.dry ==> unchanged", scenario{pkgRel: "", what: "a --dry run whose fingerprint check fails (generates path below a plain file) deletes the fingerprint recorded by the previous real run",
+		src: gvcHeader + `
+func TestGvcReplay(t *testing.T) {
+	dir := t.TempDir()
+	gvcWrite(t, dir, "Taskfile.yml", "version: '3'\nsilent: true\ntasks:\n  a:\n    method: checksum\n    sources: [src.txt]\n    generates: [out/x]\n    cmds: [\"mkdir -p out && echo ran > out/x\"]\n")
+	gvcWrite(t, dir, "src.txt", "1")
+	var out bytes.Buffer
+	if err := gvcExec(t, dir, &out).Run(context.Background(), &task.Call{Task: "a"}); err != nil {
+		t.Fatalf("real run: %v", err)
+	}
+	// the directory of the generated file is replaced by a plain file: looking up out/x now fails with
+	// ENOTDIR, which the checker reports as an error of the fingerprint check itself
+	os.RemoveAll(filepath.Join(dir, "out"))
+	gvcWrite(t, dir, "out", "not a directory")
+	before := gvcTree(t, filepath.Join(dir, ".task"))
+	err := gvcExec(t, dir, &out, task.WithDry(true)).Run(context.Background(), &task.Call{Task: "a"})
+	if err == nil {
+		t.Skip("the fingerprint check did not fail on this system")
+	}
+	if after := gvcTree(t, filepath.Join(dir, ".task")); after != before {
+		t.Fatalf("GVC-REPLAY-REPRODUCED: a dry run (which ended with %v) changed the fingerprint state\nbefore:\n%s\nafter:\n%s", err, before, after)
+	}
+}
+`}},
+	{"fingerprint.(*TimestampChecker).OnError", "checker.dry ==> unchanged", scenario{pkgRel: "", what: "a --dry run whose fingerprint check fails (generates path below a plain file) deletes the fingerprint recorded by the previous real run",
+		src: gvcHeader + `
+func TestGvcReplay(t *testing.T) {
+	dir := t.TempDir()
+	gvcWrite(t, dir, "Taskfile.yml", "version: '3'\nsilent: true\ntasks:\n  a:\n    method: checksum\n    sources: [src.txt]\n    generates: [out/x]\n    cmds: [\"mkdir -p out && echo ran > out/x\"]\n")
+	gvcWrite(t, dir, "src.txt", "1")
+	var out bytes.Buffer
+	if err := gvcExec(t, dir, &out).Run(context.Background(), &task.Call{Task: "a"}); err != nil {
+		t.Fatalf("real run: %v", err)
+	}
+	// the directory of the generated file is replaced by a plain file: looking up out/x now fails with
+	// ENOTDIR, which the checker reports as an error of the fingerprint check itself
+	os.RemoveAll(filepath.Join(dir, "out"))
+	gvcWrite(t, dir, "out", "not a directory")
+	before := gvcTree(t, filepath.Join(dir, ".task"))
+	err := gvcExec(t, dir, &out, task.WithDry(true)).Run(context.Background(), &task.Call{Task: "a"})
+	if err == nil {
+		t.Skip("the fingerprint check did not fail on this system")
+	}
+	if after := gvcTree(t, filepath.Join(dir, ".task")); after != before {
+		t.Fatalf("GVC-REPLAY-REPRODUCED: a dry run (which ended with %v) changed the fingerprint state\nbefore:\n%s\nafter:\n%s", err, before, after)
+	}
+}
+`}},
 	{"v3.(*Executor).startExecution", "execOK(h)", scenario{pkgRel: "", what: "a task whose run-once dependency FAILED earlier in the same invocation runs its commands: the later caller of the deduplicated execution gets nil",
 		src: gvcHeader + `
 func TestGvcReplay(t *testing.T) {
